@@ -1,0 +1,156 @@
+//go:build verif
+
+// Contracts for the deductive verifier under /verif (comment-only; never compiled into oxy).
+package cbreaker
+
+// states: 0 standby, 1 tripped, 2 recovering
+
+//@ pred rcOK(r *ratioController) = r != nil && r.duration > 0 && r.allowed >= 0 && r.denied >= 0 && r.start <= r.tlast && r.tlast <= lastclock
+//@ pred ramped(r *ratioController) = 2 * r.duration * r.allowed <= (r.allowed + r.denied) * (r.tlast - r.start)
+
+//@ type ratioController
+//@   immutable duration start log
+//@   guarded_by CircuitBreaker.m: allowed denied
+//@   ghost tlast int guarded_by CircuitBreaker.m
+
+//@ type CircuitBreaker
+//@   immutable m metrics condition fallbackDuration recoveryDuration onTripped onStandby checkPeriod fallback next verbose log
+//@   setup Fallback Wrap
+//@   guarded_by m: state until rc lastCheck
+//@   lockinv m (c): state_range: 0 <= c.state && c.state <= 2
+//@   lockinv m (c): recovering_has_ramp: c.state == 2 ==> c.rc != nil && allocated(c.rc) && rcOK(c.rc) && ramped(c.rc) && c.rc.duration == c.recoveryDuration
+//@   lockinv m (c): config: c.recoveryDuration > 0 && c.metrics != nil && c.next != nil && c.fallback != nil
+
+// ---- C12: the recovery ramp ---------------------------------------------------------------------
+
+//@ func (*ratioController).computeRatio
+//@   props C12
+//@   requires allowed >= 0 && denied >= 0
+//@   ensures empty: allowed + denied == 0 ==> result == 0.0
+//@   ensures ratio: allowed + denied != 0 ==> result == real(allowed) / real(allowed + denied)
+
+//@ func (*ratioController).targetRatio
+//@   props C12
+//@   holds CircuitBreaker.m
+//@   assume clock_stable
+//@   requires r != nil && r.duration > 0
+//@   ensures half_of_elapsed_fraction: result == 0.5 / real(r.duration) * real(lastclock - r.start)
+
+//@ func (*ratioController).allowRequest
+//@   props C12 C05
+//@   holds CircuitBreaker.m
+//@   assume clock_stable
+//@   requires rcOK(r) && ramped(r)
+//@   modifies r.allowed, r.denied, r.tlast
+//@   ghost_ensures r.tlast == lastclock
+//@   ensures decision: result <==> 2 * r.duration * (old(r.allowed) + 1) < (old(r.allowed) + old(r.denied) + 1) * (lastclock - r.start)
+//@   ensures counted: r.allowed == old(r.allowed) + ite(result, 1, 0) && r.denied == old(r.denied) + ite(result, 0, 1)
+//@   ensures refused_only_at_the_ramp: !result ==> 2 * r.duration * (old(r.allowed) + 1) >= (old(r.allowed) + old(r.denied) + 1) * (lastclock - r.start)
+//@   ensures stays_under_the_ramp: rcOK(r) && ramped(r)
+
+//@ func newRatioController
+//@   props C12 C05
+//@   assume clock_stable
+//@   requires rampUp > 0
+//@   modifies nothing
+//@   ghost_ensures result.tlast == lastclock
+//@   ensures fresh_ramp: result != nil && fresh(result) && result.duration == rampUp && result.start == lastclock && result.allowed == 0 && result.denied == 0 && rcOK(result) && ramped(result)
+
+// ---- C05 / C18: the state machine ----------------------------------------------------------------
+
+//@ pred edge(from int, to int) = (from == 0 && to == 1) || (from == 2 && to == 1) || (from == 1 && to == 2) || (from == 2 && to == 0)
+
+//@ iface cbreaker.SideEffect.Exec
+//@   params self
+//@   modifies everything
+//@   maypanic
+
+//@ functype cbreaker.hpredicate
+//@   params c
+//@   holds CircuitBreaker.m
+//@   modifies RollingCounter.lastUpdated
+//@   ensures deterministic: result == hpval(self, c)
+
+//@ spec hpval(f int, c *CircuitBreaker) bool
+//@ spec ival(f int, c *CircuitBreaker) int
+//@ spec fval(f int, c *CircuitBreaker) real
+
+//@ functype cbreaker.toInt
+//@   params c
+//@   ensures deterministic: result == ival(self, c)
+//@ functype cbreaker.toFloat64
+//@   params c
+//@   ensures deterministic: result == fval(self, c)
+
+//@ func (*CircuitBreaker).isStandby
+//@   props C05 C09
+//@   atomic c.m
+//@   ensures reads_state: result <==> c.state == 0
+
+//@ func (*CircuitBreaker).timeToCheck
+//@   props C18 C09
+//@   atomic c.m
+//@   assume clock_stable
+//@   ensures due: result <==> lastclock > c.lastCheck
+
+//@ func (*CircuitBreaker).exec
+//@   props C18
+//@   ensures nil_is_noop: s == nil ==> calls("go:exec$1") == 0
+//@   ensures one_goroutine: s != nil ==> calls("go:exec$1") == 1
+
+//@ func exec$1
+//@   props C18
+//@   modifies everything
+//@   ensures runs_once: calls(s.Exec) == 1
+
+//@ func (*CircuitBreaker).setState
+//@   props C05 C18
+//@   holds c.m
+//@   requires legal_transition: edge(c.state, state)
+//@   modifies c.state, c.until
+//@   ensures set: c.state == state && c.until == until
+//@   ensures tripped_effect_once: state == 1 ==> calls("go:exec$1") == ite(c.onTripped != nil, 1, 0) && (calls("go:exec$1") == 1 ==> callarg(exec, 0, 1) == c.onTripped)
+//@   ensures standby_effect_once: state == 0 ==> calls("go:exec$1") == ite(c.onStandby != nil, 1, 0) && (calls("go:exec$1") == 1 ==> callarg(exec, 0, 1) == c.onStandby)
+//@   ensures no_effect_otherwise: state == 2 ==> calls("go:exec$1") == 0
+
+//@ func (*CircuitBreaker).setRecovering
+//@   props C05 C12
+//@   holds c.m
+//@   assume clock_stable
+//@   requires c.state == 1 && c.recoveryDuration > 0
+//@   modifies c.state, c.until, c.rc
+//@   ensures recovering: c.state == 2 && c.until == lastclock + c.recoveryDuration && c.rc != nil && fresh(c.rc) && rcOK(c.rc) && ramped(c.rc) && c.rc.duration == c.recoveryDuration && c.rc.start == lastclock
+
+//@ func (*CircuitBreaker).activateFallback
+//@   props C05 C12
+//@   atomic c.m
+//@   assume clock_stable
+//@   modifies c.state, c.until, c.rc, ratioController.allowed, ratioController.denied, ratioController.tlast
+//@   ensures shielded_while_tripped: callres(isStandby, 0, 0) == false && old(c.state) == 1 && lastclock < old(c.until) ==> result && c.state == 1 && c.until == old(c.until)
+//@   ensures standby_passes: callres(isStandby, 0, 0) ==> !result
+//@   ensures passed_means_standby_or_ramp: !result && !callres(isStandby, 0, 0) ==> c.state == 0 || (c.state == 2 && c.rc.allowed >= 1)
+//@   ensures only_legal_moves: c.state == old(c.state) || edge(old(c.state), c.state) || (old(c.state) == 1 && c.state == 0)
+//@   ensures recovery_ends_in_standby: !callres(isStandby, 0, 0) && old(c.state) == 2 && lastclock > old(c.until) ==> c.state == 0 && !result
+//@   ensures fallback_period_over: !callres(isStandby, 0, 0) && old(c.state) == 1 && lastclock >= old(c.until) ==> c.state == 2 || c.state == 0
+
+//@ func (*CircuitBreaker).checkAndSet
+//@   props C05 C18
+//@   assume clock_stable
+//@   modifies c.state, c.until, c.lastCheck, everything
+//@   ensures not_due_no_change: !callres(timeToCheck, 0, 0) ==> calls(c.condition) == 0 && calls(c.metrics.Reset) == 0
+//@   ensures trips_iff_condition: calls(c.condition) == 1 ==> ((c.state == 1) <==> callres(c.condition, 0, 0))
+//@   ensures tripping_clears_metrics: calls(c.condition) == 1 && callres(c.condition, 0, 0) ==> calls(c.metrics.Reset) == 1 && c.until == lastclock + c.fallbackDuration
+//@   ensures no_trip_no_reset: calls(c.condition) == 0 || !callres(c.condition, 0, 0) ==> calls(c.metrics.Reset) == 0
+//@   ensures evaluated_once: calls(c.condition) <= 1
+
+//@ func (*CircuitBreaker).serve
+//@   props C05 C18 C20
+//@   modifies everything
+//@   ensures handler_once: calls(c.next.ServeHTTP) == 1
+//@   ensures recorded_once: calls(c.metrics.Record) == 1 && calls(checkAndSet) == 1 && before(c.next.ServeHTTP, c.metrics.Record) && before(c.metrics.Record, checkAndSet)
+
+//@ func (*CircuitBreaker).ServeHTTP
+//@   props C05 C20
+//@   modifies everything
+//@   ensures one_outcome: calls(c.fallback.ServeHTTP) + calls(serve) == 1
+//@   ensures fallback_iff_activated: (calls(c.fallback.ServeHTTP) == 1) <==> callres(activateFallback, 0, 0)
